@@ -374,6 +374,11 @@ func (st *State) entityFieldInits(h *HeapView, t *entTable, blocks *int, boxOf f
 			if c.Nullable && c.Sort == SInt {
 				// optional, non-nillable field: zero value when NULL
 				out = append(out, fieldInit{c.Field, c.Sort, false, func(e, r *Term) *Term { return Ite(null(r), IntLit(0), col(r)) }})
+			} else if c.Nullable && c.Sort == SBool {
+				out = append(out, fieldInit{c.Field, c.Sort, false, func(e, r *Term) *Term { return Ite(null(r), TFalse, col(r)) }})
+			} else if c.Nullable && c.Sort == SStr {
+				empty := st.strLit("")
+				out = append(out, fieldInit{c.Field, c.Sort, false, func(e, r *Term) *Term { return Ite(null(r), empty, col(r)) }})
 			} else {
 				out = append(out, fieldInit{c.Field, c.Sort, false, func(e, r *Term) *Term { return col(r) }})
 			}
@@ -411,9 +416,15 @@ func (st *State) mkEntity(t *entTable, b *entBuilder, row *Term) *Term {
 			st.store(st.ptrAddr(box, vt), st.colToGo(c, vt, col))
 			st.store(fa, Ite(null, IntLit(0), box))
 		default:
-			if c.Nullable && c.Sort == SInt {
+			// a NULL scanned into a non-pointer field leaves the field's zero value
+			switch {
+			case c.Nullable && c.Sort == SInt:
 				st.store(fa, Ite(null, IntLit(0), col))
-			} else {
+			case c.Nullable && c.Sort == SBool:
+				st.store(fa, Ite(null, TFalse, col))
+			case c.Nullable && c.Sort == SStr:
+				st.store(fa, Ite(null, st.strLit(""), col))
+			default:
 				st.store(fa, col)
 			}
 		}
